@@ -19,7 +19,7 @@ A, R, I, U = 0, 1, 2, 7
 VMAP = {"A": 0, "R": 1, "I": 2}
 
 PREDS = {"C02": ["P_C02_DeliverOnce", "P_C02_ValidateOnce", "P_C02_LocalDup"],
-         "C04": ["P_C04_OnlyIfAllAccept", "P_C04_Outcome", "P_C04_Penalty", "P_C04_Local"]}
+         "C04": ["P_C04_OnlyIfAllAccept", "P_C04_Outcome", "P_C04_Penalty", "P_C04_Local", "P_C04_Applicable"]}
 
 OBLIGATIONS = {
     "C02": ["dup_dropped_at_shouldPush", "dup_dropped_at_markSeen_in_worker", "dup_of_locally_published_id",
@@ -27,7 +27,8 @@ OBLIGATIONS = {
             "dup_inside_one_rpc_on_novalidator_path_gossipsub", "dup_inside_one_rpc_on_novalidator_path_floodsub"],
     "C04": ["inline_ignore_then_async_accept_stays_ignore", "inline_ignore_plus_async_reject", "throttled_plus_ignore",
             "unknown_verdict", "timeout", "dup_during_validation_then_reject_penalised",
-            "dup_during_validation_then_ignore_unpenalised", "local_reject", "dup_after_reject_with_full_queue_penalised"],
+            "dup_during_validation_then_ignore_unpenalised", "local_reject", "dup_after_reject_with_full_queue_penalised",
+            "two_topics_queued_together_with_3plus_defaults"],
 }
 
 ASSUMPTIONS = [
@@ -47,8 +48,8 @@ def _q(xs):
     return set('"%s"' % x for x in xs)
 
 
-def _mc_cfg(ids, local, calls, nvmax, qcap, copies, verdicts, space, bug="none", workers=("w1", "w2"), symmetry=True, batch=1):
-    consts = {"Fwd": {"p1", "p2"}, "Ids": set(ids), "LocalIds": set(local), "Workers": set(workers), "Calls": set(calls),
+def _mc_cfg(ids, local, calls, nvmax, qcap, copies, verdicts, space, bug="none", workers=("w1", "w2"), symmetry=True, batch=1, t2=()):
+    consts = {"Fwd": {"p1", "p2"}, "Ids": set(ids), "LocalIds": set(local), "T2Ids": set(t2), "Workers": set(workers), "Calls": set(calls),
               "Subs": {"s1"}, "NVmax": nvmax, "QCap": qcap, "MaxCopies": copies, "MaxBatch": batch, "Verdicts": _q(verdicts),
               "CfgSpace": "CfgSpace <- " + space, "Bug": '"%s"' % bug}
     return vlib.cfg_text(constants=consts,
@@ -64,18 +65,22 @@ def mc_plan(thorough):
         ("two-ids", _mc_cfg(["m1", "m2"], [], [], 2, 1, 2, ["A", "R", "I"], "CfgTwo"), None, 900, False),
         ("c02-races", _mc_cfg(["m1"], ["m1"], ["c1"], 3, 2, 3, ALL4, "CfgC02", batch=3), None, 600, False),
         ("loop-path", _mc_cfg(["m1", "m2"], ["m1"], ["c1"], 0, 2, 3, ["A"], "CfgLoop", batch=3), None, 300, False),
+        ("two-topics", _mc_cfg(["m1", "m2"], ["m1"], ["c1"], 3, 2, 1, ["A", "R", "I"], "CfgTopics01", t2=["m2"]), None, 300, False),
     ]
     bugs = [("markSeenLate", "CfgBugA", ["P_C02_ValidateOnce"], 1), ("noCarry", "CfgBugA", ["P_C04_OnlyIfAllAccept", "P_C04_Outcome"], 1),
             ("unknownAccept", "CfgBugA", ["P_C04_OnlyIfAllAccept", "P_C04_Outcome", "P_C04_Local"], 1),
             ("penaliseIgnore", "CfgBugA", ["P_C04_Penalty"], 1), ("localSwallow", "CfgBugA", ["P_C04_Local", "P_C04_OnlyIfAllAccept"], 1),
             ("dupErrReturned", "CfgBugA", ["P_C02_LocalDup"], 1), ("ignoreOverThrottle", "CfgBugB", ["P_C04_Outcome"], 2),
             ("acceptOverrides", "CfgBugB", ["P_C04_OnlyIfAllAccept", "P_C04_Outcome"], 1), ("pushNoMark", "CfgBugL", ["P_C02_DeliverOnce"], 1),
-            ("noSeenCheck", "CfgBugA", ["P_C04_Penalty"], 3), ("pushIgnoreResult", "CfgBugL", ["P_C02_DeliverOnce"], 4)]
+            ("noSeenCheck", "CfgBugA", ["P_C04_Penalty"], 3), ("pushIgnoreResult", "CfgBugL", ["P_C02_DeliverOnce"], 4),
+            ("sharedVals", "CfgTopics1", ["P_C04_Applicable", "P_C04_OnlyIfAllAccept"], 5)]
     for bug, space, expect, shape in bugs:
         if shape == 1:
             cfg = _mc_cfg(["m1"], ["m1"], ["c1"], 2, 2, 2, ALL4, space, bug)
         elif shape == 2:   # needs a second id for the per-validator throttle
             cfg = _mc_cfg(["m1", "m2"], [], [], 2, 2, 1, ["A", "R", "I"], space, bug)
+        elif shape == 5:   # two topics with their own validators, two messages queued together
+            cfg = _mc_cfg(["m1", "m2"], [], [], 3, 2, 1, ["A", "R"], space, bug, t2=["m2"])
         elif shape == 4:   # no local publish: only two copies of one id inside ONE RPC both pass shouldPush
             cfg = _mc_cfg(["m1"], [], [], 0, 2, 2, ["A"], space, bug, batch=2)
         else:              # one worker, queue of one: a copy of a seen id meets a full queue
@@ -83,10 +88,10 @@ def mc_plan(thorough):
         plan.append(("bug-" + bug, cfg, expect, 600, False))
     if thorough:
         plan += [
-            ("two-ids-all", _mc_cfg(["m1", "m2"], [], [], 2, 1, 2, ["A", "R", "I"], "CfgTwoAll", batch=2), None, 900, True),
-            ("verdicts4", _mc_cfg(["m1"], ["m1"], ["c1"], 4, 2, 2, ALL4, "CfgC04"), None, 1200, True),
-            ("design-c02", _mc_cfg(["m1", "m2"], ["m1"], ["c1"], 3, 2, 3, ALL4, "CfgC02"), None, 600, True),
-            ("two-ids-local", _mc_cfg(["m1", "m2"], ["m1"], ["c1"], 2, 2, 2, ["A", "R", "I"], "CfgTwoAll"), None, 780, True),
+            ("two-ids-all", _mc_cfg(["m1", "m2"], [], [], 2, 1, 2, ["A", "R", "I"], "CfgTwoAll", batch=2), None, 600, True),
+            ("verdicts4", _mc_cfg(["m1"], ["m1"], ["c1"], 4, 2, 2, ALL4, "CfgC04"), None, 700, True),
+            ("design-c02", _mc_cfg(["m1", "m2"], ["m1"], ["c1"], 3, 2, 3, ALL4, "CfgC02"), None, 500, True),
+            ("two-ids-local", _mc_cfg(["m1", "m2"], ["m1"], ["c1"], 2, 2, 2, ["A", "R", "I"], "CfgTwoAll"), None, 600, True),
         ]
     return plan
 
@@ -95,7 +100,7 @@ def run_mc(ctx, thorough, pool):
     futs = []
     for name, cfg, expect, to, allow in mc_plan(thorough):
         futs.append((name, expect, allow, pool.submit(vlib.run_tlc, ctx, FAMILY, "MCIngest", cfg, timeout=to,
-                                                      name="mc-" + name, workers=2)))
+                                                      name="mc-" + name, workers=1)))
     return futs
 
 
@@ -126,6 +131,9 @@ def join_mc(ctx, futs):
 # ----------------------------------------------------------------------------------------------- scenarios
 
 def mkcfg(nv, inl=(), tmo=(), gthr=1, vthr=1, signed=True, subs=1, relay=False, deaf=False, qcap=2, workers=2, **kw):
+    """nv validators numbered 1..nv; tv1 / tv2 (keyword) = the ones registered as validator of topic T1 / T2, the others
+    are default validators.  Messages named n* travel on T2.  Without tv1/tv2 the variants decide whether the last
+    validator is T1's topic validator."""
     c = {"nv": nv, "inl": list(inl), "tmo": list(tmo), "gthr": gthr, "vthr": vthr, "signed": signed, "subs": subs,
          "relay": relay, "deaf": deaf, "qcap": qcap, "workers": workers}
     c.update(kw)
@@ -218,6 +226,32 @@ def directed():
     add("rpc_dup_sigonly", mkcfg(0), [rpc("p1", "m1", "m1", "m2"), rpc("p2", "m2", "m1")])
     add("rpc_dup_validators", mkcfg(1, [1]), [rpc("p1", "m1", "m1"), rel(1, "m1", R), rpc("p2", "m1", "m2", "m2"), rel(1, "m2", A)])
     add("rpc_dup_async", mkcfg(1, []), [rpc("p1", "m1", "m2", "m1"), rel(1, "m1", A), rel(1, "m2", I), rpc("p2", "m2", "m1")])
+    # two topics with their own validators next to d default validators: messages of both topics wait in valQ together
+    # (getValidators must hand every message its OWN list: defaults + the validator of its own topic)
+    for dn in (0, 1, 2, 3, 4, 5):
+        t1, t2 = dn + 1, dn + 2
+        allv = list(range(1, dn + 3))
+        ci = mkcfg(dn + 2, allv, tv1=t1, tv2=t2, t2=True)                       # everything inline
+        ca = mkcfg(dn + 2, [], tv1=t1, tv2=t2, t2=True, gthr=2, vthr=4)         # everything asynchronous
+        defs_m = [rel(v, "m1", A) for v in range(1, dn + 1)]
+        defs_n = [rel(v, "n1", A) for v in range(1, dn + 1)]
+        q2 = [block("b1"), block("b2"), msg("p1", "m1"), msg("p2", "n1"), unblock("b1"), unblock("b2")]
+        add("topics_inl_d%d_own_accepts_other_rejects" % dn, ci, q2 + defs_m + [rel(t1, "m1", A)] + defs_n + [rel(t2, "n1", R), msg("p2", "m1")])
+        add("topics_async_d%d_own_rejects_other_accepts" % dn, ca, q2 + defs_m + defs_n + [rel(t1, "m1", R), rel(t2, "n1", A), msg("p1", "n1")])
+        if dn in (3, 5):
+            # one worker, busy with an earlier message; then T2 first, T1 second, and the reverse verdicts
+            c1 = mkcfg(dn + 2, [1], tv1=t1, tv2=t2, t2=True, gthr=2, vthr=4, workers=1, qcap=3)
+            add("topics_oneworker_d%d" % dn, c1,
+                [msg("p1", "m0"), msg("p2", "n1"), msg("p1", "m1"), msg("p2", "n2"), rel(1, "m0", R),
+                 rel(1, "n1", A)] + [rel(v, "n1", A) for v in range(2, dn + 1)] + [rel(t2, "n1", I),
+                 rel(1, "m1", A)] + [rel(v, "m1", A) for v in range(2, dn + 1)] + [rel(t1, "m1", A),
+                 rel(1, "n2", A)] + [rel(v, "n2", A) for v in range(2, dn + 1)] + [rel(t2, "n2", R)])
+    add("topics_only_t2_has_validator", mkcfg(4, [1], tv2=4, t2=True, gthr=2, vthr=4),
+        [block("b1"), block("b2"), msg("p1", "n1"), msg("p2", "m1"), unblock("b1"), unblock("b2"),
+         rel(1, "n1", A), rel(1, "m1", A), rel(2, "n1", A), rel(3, "n1", A), rel(2, "m1", A), rel(3, "m1", A), rel(4, "n1", R)])
+    add("topics_local_publish", mkcfg(5, [1, 2], tv1=4, tv2=5, t2=True, idfn="content"),
+        [pub("n1"), rel(1, "n1", A), rel(2, "n1", A), rel(3, "n1", A), msg("p1", "m1"), rel(5, "n1", R), rel(1, "m1", A), rel(2, "m1", A),
+         rel(3, "m1", A), rel(4, "m1", A), msg("p1", "n1")])
     add("unsigned_validators", mkcfg(2, [2], signed=False), [msg("p1", "m1"), msg("p2", "m1"), rel(2, "m1", A), rel(1, "m1", R), msg("p2", "m1")])
     add("relay_only", mkcfg(1, [1], subs=0, relay=True), [msg("p1", "m1"), rel(1, "m1", A), msg("p2", "m1"), msg("p1", "m2"), rel(1, "m2", I)])
     add("not_interested", mkcfg(1, [1], subs=0), [msg("p1", "m1"), msg("p2", "m1")])
@@ -241,7 +275,7 @@ def variants(cfg, acts, rng, n):
     idfns = ["content", "topic"] if has_pub or cfg.get("idfn") in ("content", "topic") else ["default", "content", "topic"]
     routers = (cfg["router"],) if cfg.get("router") else ("gossipsub", "gossipsub", "floodsub")
     allv = [(i, s, r, t) for i in idfns for s in ("first", "last") for r in routers
-            for t in ((False, True) if cfg["nv"] > 0 else (False,))]
+            for t in ((False, True) if cfg["nv"] > 0 and "tv1" not in cfg and "tv2" not in cfg else (False,))]
     rng.shuffle(allv)
     # the first variant is always a gossipsub one (penalties are only observable there)
     allv.sort(key=lambda v: v[2] != "gossipsub")
@@ -250,31 +284,46 @@ def variants(cfg, acts, rng, n):
     out = []
     for i, s, r, t in (head + tail)[:n]:
         c = dict(cfg)
-        c.update({"idfn": i, "strategy": s, "router": r, "topicv": t, "tmoMs": 20000, "drain": rng.choice([A, I])})
+        c.update({"idfn": i, "strategy": s, "router": r, "tmoMs": 20000, "drain": rng.choice([A, I])})
+        c.setdefault("tv1", cfg["nv"] if t else 0)
+        c.setdefault("tv2", 0)
+        c["t2"] = bool(c.get("t2") or c["tv2"] or any(str(x).startswith("n") for a in acts for x in [a.get("m", "")] + list(a.get("ms", []))))
         out.append(c)
     return out
 
 
 def gen_cfgs(rng, n):
-    """Sample of the configuration space handed to GenIngest (python controls the distribution)."""
+    """Sample of the configuration space handed to GenIngest (python controls the distribution):
+    (nv, inl, tmo, gthr, signed, deaf, subs, relay, tv1, tv2, vthr)."""
     out, seen = [], set()
     must = [(2, (1,), (), 1, True, False), (3, (1,), (), 1, True, False), (2, (), (), 2, True, True), (1, (1,), (1,), 1, True, False),
             (2, (1,), (2,), 1, True, False), (0, (), (), 1, False, False), (3, (2,), (), 2, True, True), (4, (1, 3), (), 1, True, False),
             (1, (), (), 1, True, False), (0, (), (), 1, True, False)]
-    def put(nv, inl, tmo, gthr, signed, deaf, subs=1, relay=False):
-        k = (nv, inl, tmo, gthr, signed, deaf, subs, relay)
+    def put(nv, inl, tmo, gthr, signed, deaf, subs=1, relay=False, tv1=0, tv2=0, vthr=1):
+        k = (nv, inl, tmo, gthr, signed, deaf, subs, relay, tv1, tv2, vthr)
         if k in seen:
             return
         seen.add(k)
         out.append(k)
     for m in must:
         put(*m)
+    # two topics with their own validators next to 3 / 1 / 0 default validators
+    put(5, (1, 2, 3, 4, 5), (), 2, True, False, 1, False, 4, 5, 2)
+    put(5, (), (), 2, True, False, 1, False, 4, 5, 2)
+    put(5, (1, 4), (), 2, True, True, 1, False, 4, 5, 2)
+    put(3, (1,), (), 2, True, False, 1, False, 2, 3, 2)
+    put(2, (2,), (), 1, True, False, 1, False, 1, 2, 1)
+    put(4, (1,), (), 1, True, False, 1, False, 0, 4, 1)
     while len(out) < n:
-        nv = rng.choice([0, 1, 1, 2, 2, 2, 3, 3, 4])
+        nv = rng.choice([0, 1, 1, 2, 2, 2, 3, 3, 4, 5])
         inl = tuple(v for v in range(1, nv + 1) if rng.random() < 0.45)
         tmo = tuple(v for v in range(1, nv + 1) if rng.random() < 0.25)
         subs, relay = rng.choice([(1, False)] * 6 + [(2, False), (0, True), (1, True), (0, False)])
-        put(nv, inl, tmo, rng.choice([1, 1, 2]), rng.random() < 0.85, rng.random() < 0.4, subs, relay)
+        lay = rng.choice(["none", "none", "t1", "t1", "both", "t2"])
+        tv1, tv2 = {"none": (0, 0), "t1": (nv, 0), "t2": (0, nv), "both": (nv - 1, nv)}[lay]
+        if nv == 0 or (lay == "both" and nv < 2):
+            tv1, tv2 = 0, 0
+        put(nv, inl, tmo, rng.choice([1, 1, 2]), rng.random() < 0.85, rng.random() < 0.4, subs, relay, tv1, tv2, rng.choice([1, 1, 2]))
     return out
 
 
@@ -284,16 +333,16 @@ def _tla_set(xs):
 
 def gen_module(cfgs):
     recs = []
-    for nv, inl, tmo, gthr, signed, deaf, subs, relay in cfgs:
+    for nv, inl, tmo, gthr, signed, deaf, subs, relay, tv1, tv2, vthr in cfgs:
         ss = "{" + ", ".join('"s%d"' % i for i in range(1, subs + 1)) + "}"
-        recs.append("[nv |-> %d, inl |-> %s, tmo |-> %s, gthr |-> %d, vthr |-> 1, signed |-> %s, subs |-> %s, relay |-> %s, deaf |-> %s]" %
-                    (nv, _tla_set(inl), _tla_set(tmo), gthr, vlib.tla(signed), ss, vlib.tla(relay), vlib.tla(deaf)))
+        recs.append("[nv |-> %d, inl |-> %s, tmo |-> %s, gthr |-> %d, vthr |-> %d, tv1 |-> %d, tv2 |-> %d, signed |-> %s, subs |-> %s, relay |-> %s, deaf |-> %s]" %
+                    (nv, _tla_set(inl), _tla_set(tmo), gthr, vthr, tv1, tv2, vlib.tla(signed), ss, vlib.tla(relay), vlib.tla(deaf)))
     return "---- MODULE GenRun ----\nEXTENDS GenIngest\nGenCfgs == {\n  " + ",\n  ".join(recs) + " }\n====\n"
 
 
 def run_gen(ctx, rng, walks, L, name, ncfg=28, min_emit=3):
-    consts = {"Fwd": _q(["p1", "p2"]), "Ids": _q(["m1", "m2"]), "LocalIds": _q(["m1"]), "Workers": _q(["w1", "w2"]),
-              "Calls": _q(["c1"]), "Subs": _q(["s1", "s2"]), "NVmax": 4, "QCap": 2, "MaxCopies": 3, "MaxBatch": 3, "Verdicts": _q(ALL4),
+    consts = {"Fwd": _q(["p1", "p2"]), "Ids": _q(["m1", "m2", "n1"]), "T2Ids": _q(["n1"]), "LocalIds": _q(["m1"]), "Workers": _q(["w1", "w2"]),
+              "Calls": _q(["c1"]), "Subs": _q(["s1", "s2"]), "NVmax": 5, "QCap": 2, "MaxCopies": 3, "MaxBatch": 2, "Verdicts": _q(ALL4),
               "CfgSpace": "CfgSpace <- GenCfgs", "Bug": '"none"', "L": L, "MinEmit": min_emit, "MaxBlock": 2, "MaxAdv": 1}
     cfg = vlib.cfg_text(init="GInit", next_="GNext", constants=consts, invariants=["Emit", "GenOK"])
     g = vlib.run_tlc(ctx, FAMILY, "GenRun", cfg, mode="sim", simulate="num=%d" % walks, depth=6 * L + 10, workers=1,
@@ -448,8 +497,10 @@ def project(idx, cfg, tr):
                     "dl": dl, "pr": pr, "pen": pen})
     names = sorted(n for n in names if n and not BLOCKER.match(n))
     reset = {"a": "reset", "scn": idx, "s": 0, "m": "", "p": "",
-             "cfg": {"nv": cfg["nv"], "nsubs": cfg["subs"], "score": score, "obs": True},
-             "msgs": names, "peers": ["p1", "p2", "obs", "g1"] if score else [], "subs": ["s%d" % i for i in range(1, cfg["subs"] + 1)],
+             "cfg": {"nv": cfg["nv"], "tv1": cfg.get("tv1", 0), "tv2": cfg.get("tv2", 0), "nsubs": cfg["subs"], "score": score, "obs": True},
+             "msgs": names, "t2": [n for n in names if n.startswith("n")],
+             "peers": ["p1", "p2", "obs", "g1"] if score else [], "subs": ["s%d" % i for i in range(1, cfg["subs"] + 1)],
+             "subs2": ["u%d" % i for i in range(1, cfg["subs"] + 1)] if cfg.get("t2") else [],
              "pen": []}
     return [reset] + out
 
@@ -483,7 +534,7 @@ def validate(ctx, traces, name, lines_per_chunk=6000, timeout=900):
                                     (name, hw, path, res.errors[:2]))
         return res.printed("VIOL"), res.distinct
     viols, states = [], 0
-    with cf.ThreadPoolExecutor(max_workers=max(1, min(vlib.NCPU // 2, 6, len(chunks)))) as ex:
+    with cf.ThreadPoolExecutor(max_workers=max(1, min(vlib.NCPU // 2, 3, len(chunks)))) as ex:
         for v, st in ex.map(lambda a: one(*a), list(enumerate(chunks))):
             viols += v
             states += st
@@ -508,8 +559,8 @@ def selftest(ctx):
     """Non-vacuity of the trace specification: hand-written observations that break each predicate must be
     reported, a correct one must not."""
     def reset(scn, nv, score=True):
-        return {"a": "reset", "scn": scn, "s": 0, "m": "", "p": "", "cfg": {"nv": nv, "nsubs": 1, "score": score, "obs": True},
-                "msgs": ["m1"], "peers": ["p1", "p2", "obs", "g1"] if score else [], "subs": ["s1"], "pen": []}
+        return {"a": "reset", "scn": scn, "s": 0, "m": "", "p": "", "cfg": {"nv": nv, "tv1": 0, "tv2": 0, "nsubs": 1, "score": score, "obs": True},
+                "msgs": ["m1"], "t2": [], "subs2": [], "peers": ["p1", "p2", "obs", "g1"] if score else [], "subs": ["s1"], "pen": []}
     pen0 = [{"p": p, "n": 0} for p in ("g1", "obs", "p1", "p2")]
     def pen(**kw):
         return [{"p": p, "n": kw.get(p, 0)} for p in ("g1", "obs", "p1", "p2")]
@@ -549,7 +600,13 @@ def selftest(ctx):
     T += [reset(8, 2), _L("msg", 8, 1, m="m1", p="p1", ev=[_ev("Validate", "m1", "p1", 1)], val=[_val("call", 1, "m1", 1)], pen=pen0),
           _L("rel", 8, 2, m="m1", ev=[_ev("Reject", "m1", "p1", 2, "validation ignored")], val=[_val("ret", 1, "m1", 2, 2, "gate")], pen=pen0),
           _L("end", 8, 3, pen=pen0)]
-    want = {(2, "P_C02_DeliverOnce"), (2, "P_C02_ValidateOnce"), (3, "P_C04_OnlyIfAllAccept"), (3, "P_C04_Outcome"),
+    # 9: two topics; message m1 of the first topic is judged by the validator of the second topic (validator 3)
+    r9 = reset(9, 3)
+    r9["cfg"].update({"tv1": 2, "tv2": 3})
+    T += [r9, _L("msg", 9, 1, m="m1", p="p1", ev=[_ev("Validate", "m1", "p1", 1)], val=[_val("call", 1, "m1", 1), _val("call", 3, "m1", 1)], pen=pen0),
+          _L("rel", 9, 2, m="m1", ev=[_ev("Deliver", "m1", "p1", 2)], val=[_val("ret", 1, "m1", 2, 0, "gate"), _val("ret", 3, "m1", 2, 0, "gate")],
+             fwd=[{"p": "obs", "m": "m1", "s": 2}], dl=[{"sub": "s1", "m": "m1", "s": 2}], pen=pen0), _L("end", 9, 3, pen=pen0)]
+    want = {(9, "P_C04_Applicable"), (9, "P_C04_OnlyIfAllAccept"), (9, "P_C04_Outcome"), (2, "P_C02_DeliverOnce"), (2, "P_C02_ValidateOnce"), (3, "P_C04_OnlyIfAllAccept"), (3, "P_C04_Outcome"),
             (4, "P_C04_Penalty"), (5, "P_C04_Penalty"), (6, "P_C04_Local"), (6, "P_C04_OnlyIfAllAccept"), (6, "P_C04_Outcome"),
             (7, "P_C02_LocalDup"), (8, "P_C04_Outcome")}
     res = vlib.run_tlc(ctx, FAMILY, "IngestTrace", "IngestTrace.cfg", mode="trace",
@@ -605,6 +662,13 @@ def summarize(cfg, tr):
     return S
 
 
+def appl(cfg, m):
+    """The validators that apply to message m: the defaults plus the validator of m's own topic."""
+    tv1, tv2 = cfg.get("tv1", 0), cfg.get("tv2", 0)
+    own = tv2 if m.startswith("n") else tv1
+    return [v for v in range(1, cfg["nv"] + 1) if v not in (tv1, tv2) or v == own]
+
+
 def coverage_hits(cfg, tr, hits):
     S = summarize(cfg, tr)
     inl = set(cfg["inl"])
@@ -618,8 +682,25 @@ def coverage_hits(cfg, tr, hits):
         for e in ln["ev"]:
             if e["k"] == "Reject" and e["reason"] in ("validation failed", "validation ignored", "validation throttled"):
                 reject_step.setdefault(e["m"], (e["reason"], ln["s"]))
+    ndef = len([v for v in range(1, cfg["nv"] + 1) if v not in (cfg.get("tv1", 0), cfg.get("tv2", 0))])
+    waiting, together = set(), set()
     for ln in tr[1:]:
         busy = parked + len(inline_out)
+        # messages of both topics waiting in valQ at the same time (nothing is traced for a copy that just sits in the queue)
+        for e in ln["ev"]:
+            if e["k"] == "Validate":
+                if e["m"] in together:
+                    together.discard(e["m"])
+                    if not together and ndef >= 3 and cfg.get("tv1") and cfg.get("tv2"):
+                        hit("two_topics_queued_together_with_3plus_defaults")
+                        hit("two_topics_queued_together_defaults_%d" % ndef)
+                    elif not together and cfg.get("tv1") and cfg.get("tv2"):
+                        hit("two_topics_queued_together_defaults_%d" % ndef)
+                waiting.discard(e["m"])
+        if ln["a"] == "msg" and busy >= cfg["workers"] and not ln["ev"] and not ln["val"]:
+            waiting.add(ln["m"])
+            if any(x.startswith("n") for x in waiting) and any(not x.startswith("n") for x in waiting):
+                together = set(waiting)
         if ln["a"] == "msg":
             for e in ln["ev"]:
                 if e["k"] == "Duplicate" and e["m"] == ln["m"] and e["via"] == ln["p"] and busy >= cfg["workers"]:
@@ -661,7 +742,7 @@ def coverage_hits(cfg, tr, hits):
         ir = [r for r in remote if r["v"] in inl]
         ar = [r for r in remote if r["v"] not in inl]
         called = S["calls"].get(m, {})
-        skipped = any(v not in called for v in range(1, cfg["nv"] + 1))
+        skipped = any(v not in called for v in appl(cfg, m))
         if any(r["r"] == I for r in ir) and ar and all(r["r"] == A for r in ar) and fin == {"I"} and not skipped:
             hit("inline_ignore_then_async_accept_stays_ignore")
         if any(r["r"] == I for r in ir) and any(r["r"] == R for r in ar) and fin == {"R"}:
@@ -730,7 +811,11 @@ def drift(s, S):
         if sorted(S["finals"].get(m, set())) != sorted(fin):
             out.append("final(%s): model %s, node %s" % (m, sorted(fin), sorted(S["finals"].get(m, set()))))
         for sub, n in e["delivered"][m].items():
-            if int(sub[1:]) <= cfg["subs"] and S["deliv"].get(m, {}).get(sub, 0) != n:
+            if int(sub[1:]) > cfg["subs"]:
+                continue
+            if m.startswith("n"):
+                sub = "u" + sub[1:]          # the subscriptions of the second topic
+            if S["deliv"].get(m, {}).get(sub, 0) != n:
                 out.append("delivered(%s,%s): model %d, node %d" % (sub, m, n, S["deliv"].get(m, {}).get(sub, 0)))
         for v, n in enumerate(e["calls"][m], 1):
             if S["calls"].get(m, {}).get(v, 0) != n:
@@ -751,16 +836,16 @@ def drift(s, S):
 def run_ingest(ctx, focus):
     T = ctx.thorough
     rng = random.Random(ctx.seed * 1000 + (1 if focus == "C02" else 2))
-    pool = cf.ThreadPoolExecutor(max_workers=3 if not T else 4)
+    pool = cf.ThreadPoolExecutor(max_workers=4)      # 4 lanes x 1 TLC worker
     # development aid only (never set by a registered command): skip the model-level runs while trying changes of /repo
     dev_skip_mc = os.environ.get("VERIF_INGEST_DEV_SKIP_MC") == "1"
     mc_futs = run_mc(ctx, T, pool) if not dev_skip_mc else []
     st_self = selftest(ctx)
 
     # ---- scenarios
-    raw, gen_trans = run_gen(ctx, rng, 1600 if not T else 8000, 12 if not T else 14, "gen", min_emit=3 if not T else 5)
+    raw, gen_trans = run_gen(ctx, rng, 1000 if not T else 5000, 12 if not T else 14, "gen", min_emit=3 if not T else 5)
     if T:
-        raw2, t2 = run_gen(ctx, rng, 6000, 9, "gen-short", ncfg=40, min_emit=2)
+        raw2, t2 = run_gen(ctx, rng, 4000, 9, "gen-short", ncfg=40, min_emit=2)
         raw += raw2
         gen_trans += t2
     if not raw:
